@@ -835,9 +835,9 @@ func (os *outboxStorage) DeleteObject(ctx context.Context, bucketName storage.Bu
 	ctx, span := os.tracer.Start(ctx, "OutboxStorage.DeleteObject")
 	defer span.End()
 
-	// ETag-conditional deletes must execute synchronously so the precondition
+	// Conditional deletes must execute synchronously so the precondition
 	// is evaluated against the current object.
-	deleteMustBeSynchronous := opts != nil && opts.IfMatchETag != nil
+	deleteMustBeSynchronous := opts != nil && (opts.IfMatchETag != nil || opts.IfMatchLastModifiedTime != nil)
 	if !deleteMustBeSynchronous {
 		// Deletes on versioning-enabled or -suspended buckets create a delete
 		// marker whose version id must be returned to the caller; an outboxed
